@@ -441,8 +441,10 @@ def run():
             if pi < 2:
                 r.sample({"history": [g.edges[i][1] for i in p]})
         r.notes["spec_transitions_replayed"] = len(covered)
-        if thorough:
-            for p in g.random_walks(1500, 40, rng):
+        # the cover reaches every transition through ONE past; random walks reach them through others (a store that remembers more than the
+        # specification's state - caches, row ids drifting apart from key ids - shows only then)
+        for p in g.random_walks(1500 if thorough else 120, 40 if thorough else 16, rng):
+            if True:
                 replay_path(r, h, g, p, full_crash=True)
                 r.cov["traces_validated_against_impl"] += 1
         # prekey-focused configuration: 3 key ids, subsets confirmed (non-contiguous ids), longer histories
